@@ -109,6 +109,12 @@ func (w *World) pkgTypes(name string) *types.Package {
 	if p, ok := w.pkgs[name]; ok {
 		return p.Pkg
 	}
+	// packages imported by the repository (types only)
+	for _, p := range w.prog.AllPackages() {
+		if p.Pkg.Name() == name {
+			return p.Pkg
+		}
+	}
 	return nil
 }
 
@@ -577,6 +583,11 @@ func (e *Env) binary(x SBinary) Term {
 				s = b
 			}
 			r = mk(fmt.Sprintf("(is_PNull (sl_arr %s))", s.S), SBool, nil)
+		} else if a.Sort == SSlice && (isStringT(a.T) || isStringT(b.T)) {
+			// strings are compared by content, like the == of the code
+			fc := e.fc
+			fc.declareOnce("streq", "(declare-fun streq (Slice Slice) Bool)\n(assert (forall ((a Slice)) (streq a a)))\n(assert (forall ((a Slice) (b Slice)) (=> (streq a b) (= (sl_len a) (sl_len b)))))\n(assert (forall ((a Slice) (b Slice)) (= (streq a b) (streq b a))))")
+			r = mk(app("streq", a.S, b.S), SBool, nil)
 		} else {
 			if a.Sort != b.Sort {
 				e.fail("comparison of different sorts %s and %s in %s", a.Sort, b.Sort, x)
@@ -809,6 +820,15 @@ func (e *Env) call(c SCall) Term {
 		return tSel(fc.comp(e.st, fc.compChanClosed()), a, SBool, nil)
 	case "int", "uint8", "uint16", "uint32", "uint64", "int64", "int32", "byte", "uint":
 		return args()[0]
+	case "real":
+		a := args()[0]
+		if a.Sort == SReal {
+			return a
+		}
+		return mk(app("to_real", a.S), SReal, types.Typ[types.Float64])
+	case "trunc":
+		a := args()[0]
+		return mk(fmt.Sprintf("(ite (>= %s 0.0) (to_int %s) (- (to_int (- %s))))", a.S, a.S, a.S), SInt, types.Typ[types.Int])
 	case "addr":
 		// addr(place) : the address itself (identity on places)
 		return args()[0]
@@ -835,6 +855,20 @@ func (e *Env) call(c SCall) Term {
 	sf := fc.w.specs.Specs[pk+"."+name]
 	if sf == nil {
 		sf = fc.w.specs.Specs["builtin."+name]
+	}
+	if sf == nil {
+		// a spec function of another package, if the name is unambiguous
+		var found *SpecFunc
+		n := 0
+		for k, cand := range fc.w.specs.Specs {
+			if strings.HasSuffix(k, "."+name) {
+				found = cand
+				n++
+			}
+		}
+		if n == 1 {
+			sf = found
+		}
 	}
 	if sf == nil {
 		e.fail("unknown spec function %q", name)
@@ -1080,4 +1114,9 @@ func (e *Env) compNames(x SExpr) []string {
 		return nil
 	}
 	return out
+}
+
+func isStringT(t types.Type) bool {
+	b := basicOf(t)
+	return b != nil && b.Info()&types.IsString != 0
 }
